@@ -356,6 +356,25 @@ int main(int argc, char **argv)
         long long ev = 0;
         for (auto &z : Z)
             for (int radix = 2; radix <= 36; radix++) { check_integer(z, radix, ev); }
+        // multi-limb integers: every combination of boundary words in the 64-bit limbs (1..4 limbs, both signs) -- a reduction that
+        // folds the limbs itself meets p, p+-1, 2^64-1 and 2^63 in every limb position
+        {
+            const u64 LB[] = {0, 1, 0xFFFFFFFFULL, 0x8000000000000000ULL, GP - 1, GP, GP + 77, 0xFFFFFFFFFFFFFFFFULL};
+            std::vector<mpz_class> ZL;
+            for (u64 l3 : LB) for (u64 l2 : LB) for (u64 l1 : LB) for (u64 l0 : LB)
+            {
+                mpz_class z = mz(l3);
+                z = (z << 64) + mz(l2);
+                z = (z << 64) + mz(l1);
+                z = (z << 64) + mz(l0);
+                ZL.push_back(z);
+                ZL.push_back(-z);
+            }
+            for (auto &z : ZL) { check_integer(z, 10, ev); check_integer(z, 16, ev); }
+            states += (long long)ZL.size() * 2;
+            nontriv += (long long)ZL.size() * 2;
+            rep().stat("multi_limb_integers", (long long)ZL.size());
+        }
         ev_total += ev;
         states += (long long)Z.size() * 35;
         for (auto &z : Z) if (z < 0 || z >= PZ) nontriv += 35;
